@@ -2434,6 +2434,7 @@ def normalize_module(tree: ast.Module, extern=None) -> ast.Module:
                     if not n2.propagate_local_constants(n):
                         break
                 n2.local_partials(n)
+                n2.fuse_collect_loops(n)
                 n2.inline_single_use_generators(n)
                 n2.next_loops(n)
         tree = Idioms().visit(tree)
@@ -2480,6 +2481,8 @@ def normalize_module(tree: ast.Module, extern=None) -> ast.Module:
     for n in ast.walk(tree):
         if isinstance(n, ast.FunctionDef):
             n2.local_partials(n)
+            if n2.fuse_collect_loops(n):
+                n2.split_tuple_assigns(n)
             n2.indexed_tuples(n)
     # (records handed to a private helper are local again once the helper
     # was placed at its call site)
